@@ -244,6 +244,18 @@ def bracketing_rule(F, G, rep, M, pid_rule="bracketing"):
             rep.violation(pid_rule + ".open-without-close", PE + "#" + nm, "frame_open",
                           "%s arm opens a new frame at %s while the previous one may still be open for versions %s..%s (no Frame End event exists before 3.0, and no frame_close precedes on this path): "
                           "absent characters are padded in the wrong rows" % (nm, site, model.vstr(vs[0]), model.vstr(vs[-1])), site)
+    # a Frame Start event begins exactly one frame and stores exactly one start row, whatever the frame id is
+    fs = arms.get("FrameStart")
+    if fs is not None:
+        def start_row(n):
+            return n.get("k") == "MethodCall" and n["method"] == "read_push" and (callee(n) or declared(n) or "").startswith("frame::mutable::Start")
+        for v in M.classes:
+            if v < (2, 2):
+                continue
+            out = bracket.Counter(F, v, op, start_row).run(fs["body"], frozenset([(0, 0)]))
+            rep.ob(pid_rule + ".start-opens", out == frozenset([(1, 1)]), PE + "#FrameStart", "frame_open",
+                   "every Frame Start event must open exactly one frame and push exactly one start row (class %s); (frames opened, start rows) over the paths: %s — a frame occurrence "
+                   "without its own row shifts every later row" % (M.class_name(v), sorted(out)))
     rep.counts[pid_rule + ".arm_x_class"] = len(arms) * len(M.classes)
     # call sites of openers inside the dispatch
     n_open = sum(1 for a in arms.values() for x in tir.walk(a["body"]) if x.get("k") in ("Call", "MethodCall") and reach.owner_of(callee(x) or "") in op)
